@@ -37,4 +37,87 @@ CHECKS = {
     },
 }
 
+_SOLVER_NOTE = (
+    "Trusted: the reference semantics of vlib/catalogue.py and vlib/ref.py (documented relations, brute force over the cartesian product of the shared domains), "
+    "Hypothesis, and - for the interposed interpreted runs - that NUMBA_DISABLE_JIT=1 executes the same source as the compiled engine (C15 compares the two modes; the same cases "
+    "are also run compiled through the public API). gcc with a zero upper capacity is excluded from the generators (known finding K1) and counted. Not covered: problems larger than the generated sizes."
+)
+
+CHECKS.update({
+    "C01": {
+        "text": "Generated problems (all 21 constraint types mixed, shared domains with offsets, repeated variables/domains in a scope, negative and singleton domains) x all solver configurations x every API path "
+        "(find_all, solve_all, iterator and prefixes, minimize, maximize, MultiprocessingSolver over split with a drawn delivery schedule); every assignment handed to the caller is evaluated against an independent ground checker. "
+        "Exploration: the oracle needs no brute force, so it scales to the largest generated problems, in both execution modes.",
+        "note": _SOLVER_NOTE,
+        "technique": "property-based testing: Hypothesis problems x configurations x API paths vs independent ground-satisfaction oracle (interpreted + compiled)",
+    },
+    "C02": {
+        "text": "Generated problems small enough for exact brute force x a list of configurations per problem (thorough: all 40) x posting orders: the multiset yielded by the iterator must equal the brute-force solution multiset "
+        "(extra / missing / duplicated reported separately), the iterator must stop, and a further next() must not yield anything.",
+        "note": _SOLVER_NOTE,
+        "technique": "property-based testing: differential against brute-force enumeration of the cartesian product, across configurations and posting orders",
+    },
+    "C03": {
+        "text": "Generated problem x objective variable (drawn from: any / in some scope / in no scope; sharing a domain with an offset or not) x direction x configuration, sequentially and distributed over split() with a drawn "
+        "delivery schedule: result None iff brute force finds no solution, otherwise a solution whose objective value equals the brute-force optimum; termination through deterministic progress budgets.",
+        "note": _SOLVER_NOTE,
+        "technique": "property-based testing: differential against brute-force optimum; progress-budget termination oracle",
+    },
+    "C04": {
+        "text": "Termination is decided without a clock: in interposed interpreted mode every propagation pass may execute at most (S+1)*P+P propagators (S = total domain size, P = constraints), a search at most #points branching "
+        "decisions (times the objective's domain size for optimisation); a wall-clock trigger only nominates a case for a re-run under a per-call line budget. Variable heuristics must return a non-instantiated decision domain "
+        "whenever one exists. Generators put weight on the structures named in the property (duplicated sub-cycle constraints, repeated shared domains, duplicated constraints, tied cost tables). Compiled-mode hangs are "
+        "caught by the driver's per-case watchdog in the other solver-level checks and confirmed in fresh processes.",
+        "note": _SOLVER_NOTE + " The progress bound assumes that an execution that narrows no view wakes nobody, which is what the engine implements after the GROUND fix.",
+        "technique": "property-based testing: deterministic progress-measure budgets inside interposed real searches (Hypothesis problems/configurations/operations)",
+    },
+    "C08": {
+        "text": "Every non-failing exit of every propagation pass of real searches (root, after each branch, after each backtrack, inside shaving) is checked: domains non-empty and contained in the entry state, every enabled "
+        "constraint re-executed on the result neither fails nor narrows (except no_sub_cycle), and for all-exact-BC problems the result equals a reference largest common fixpoint computed by chaotic iteration of brute-force hull "
+        "operators - under posting-order permutations and drawn priority orders of the propagation queue (pop_propagator replaced by a schedule-following version). Plus propagator-level trigger sufficiency (fixpoint box + one "
+        "unwatched bound change must neither fail nor prune) and the trigger matrix (union of masks for repeated shared domains).",
+        "note": _SOLVER_NOTE,
+        "technique": "property-based testing: interposed pass-exit invariants + reference fixpoint + schedule-owned propagation queue; metamorphic trigger-sufficiency cases",
+    },
+    "C09": {
+        "text": "Model-based histories: branch(heuristic, domain) / prune / entail / backtrack operation sequences are applied to real stack arrays by calling the shipped value heuristics and backtrack() directly (both modes) and to a "
+        "Python list-of-frames model; after each step partition, untouched domains/flags/lower levels, announced events of the branch taken and of each recorded alternative, restored state and woken watchers are compared. "
+        "Exhaustive over every [a,b] within [-3,6] x 5 heuristics x cost-table families.",
+        "note": "Trusted: the list-of-frames model in vlib/props/c09.py, NumPy. The heuristics are called exactly as solve_one calls them. Stack overflow (beyond the height) is C19's matter and is not generated here.",
+        "technique": "property-based testing: model-based (stateful) operation histories + exhaustive small scope, interpreted and compiled",
+    },
+    "C10": {
+        "text": "Every invocation of the shaving algorithm inside real searches is observed (stack height restored, lower levels byte-identical, result contained in plain BC run on a copy of the entry state, no brute-force solution of the "
+        "entry sub-box lost, failure only on solution-free sub-boxes, flags cleared only for entailed constraints), and each run is compared with the same run under plain bound consistency (solution multiset / optimum).",
+        "note": _SOLVER_NOTE,
+        "technique": "property-based testing: interposed invariants around each shaving call + differential shaving vs plain bound consistency",
+    },
+    "C11": {
+        "text": "The real parent loops (solve/optimize/get_statistics) and the real worker entry points run over an in-process transport owned by the harness: Hypothesis draws the merge order of the workers' message streams and the "
+        "statistics snapshots, so every interleaving is reachable and shrinkable. Oracle: one sequential BacktrackSolver on the whole problem (multiset / optimum / None), exactly one get() per message sent (a get() on exhausted "
+        "streams is a deadlock, fewer is a lost message), aggregated statistics = sum/max of the workers' final statistics. A sample runs with real forked processes.",
+        "note": "Trusted: vlib/mpfake.py models multiprocessing.Queue as per-worker FIFO streams merged in any order, with statistics pickled at or after put; real OS-level races are sampled, not enumerated.",
+        "technique": "property-based testing: schedule-owned message interleavings (drawn merge orders) against the sequential solver; real-process sample",
+    },
+    "C12": {
+        "text": "Generated problem (constructor or add_variable(s) form) x variable (own/shared domain, offsets) x k from 1 to beyond the domain size: original object deep-equal before/after, sub-problems identical except the split "
+        "domain, ordered partition into non-empty ranges; each sub-problem is enumerated under the progress budget, solution sets pairwise disjoint, union = brute-force solution set.",
+        "note": _SOLVER_NOTE,
+        "technique": "property-based testing: structural invariants of split() + differential union-of-parts vs brute force",
+    },
+    "C13": {
+        "text": "Metamorphic: a model (generated, or a shipped one: queens, latin square, magic sequence, magic square, Schur, knapsack, circuit, Golomb) and a rewritten model (un-share domains + equalities, permute posting order, rename "
+        "variables/domains, post a constraint twice, add an always-true constraint, translate a translation-invariant model) are both solved by nucs; the solution multisets (mapped back) and the optima must be equal. No reference solver.",
+        "note": "Trusted: the rewrites of vlib/props/c13.py preserve meaning (each is a few lines, reviewed against the documented relations); Hypothesis. Cost-table heuristics are replaced by first/min for rewrites that re-index domains or values.",
+        "technique": "property-based testing: metamorphic relations between a model and its meaning-preserving rewrites",
+    },
+    "C17": {
+        "text": "Event counters kept by the interposers (constraint executions and their outcomes, executions narrowing no view, branching decisions, successful backtrack() calls, deepest level after a choice, BC / shaving passes, "
+        "shaving attempts, times the search reached a solution) are compared with get_statistics() after enumeration, partial enumeration and optimisation runs; conservation laws for exhaustive BC enumeration; "
+        "multiprocessing totals = sum/max over the workers' final statistics under drawn delivery orders and snapshot delays.",
+        "note": _SOLVER_NOTE + " 'no change' means no view was narrowed (equivalently no shared-domain change); SOLVER_BACKTRACK_NB is compared with successful backtrack() calls of any caller, as documented.",
+        "technique": "property-based testing: interposed event counts vs reported statistics, conservation laws",
+    },
+})
+
 NOT_APPLICABLE_REASON = {}
